@@ -15,18 +15,19 @@ HEAD=$(git -C /repo rev-parse HEAD)
 git -C $WT checkout -q -- . ; git -C $WT checkout -q --detach $HEAD || { echo "cannot move worktree"; exit 2; }
 DEMODIR=$(python3 -c "import json;print(json.load(open('$SRC/meta.json')).get('demo_dir','').strip('/'))")
 [ -d $WT/$DEMODIR ] || { echo "bad demo_dir $DEMODIR"; exit 2; }
+RACE=$(python3 -c "import json;print('-race' if '-race' in json.load(open('$SRC/meta.json')).get('demo_run','') else '')")
 MOD=$WT
 case $DEMODIR in addons/processors/*) MOD=$WT/$(echo $DEMODIR | cut -d/ -f1-3);; esac
 REL=${DEMODIR#$(realpath --relative-to=$WT $MOD)/}; [ "$MOD" = "$WT" ] && REL=$DEMODIR
 cp $SRC/demo_test.go $WT/$DEMODIR/zz_seed_demo_test.go
 echo "== demo on unchanged tree (must pass)"
-(cd $MOD && go test -vet=off -count=1 -timeout 300s ./$REL/ 2>&1 | tail -3); BASE=${PIPESTATUS[0]}
-(cd $MOD && go test -vet=off -count=1 -timeout 300s ./$REL/ >/dev/null 2>&1); BASE=$?
+(cd $MOD && go test $RACE -vet=off -count=1 -timeout 300s ./$REL/ 2>&1 | tail -3); BASE=${PIPESTATUS[0]}
+(cd $MOD && go test $RACE -vet=off -count=1 -timeout 300s ./$REL/ >/dev/null 2>&1); BASE=$?
 git -C $WT apply $SRC/patch.diff || { echo "PATCH DOES NOT APPLY"; rm -f $WT/$DEMODIR/zz_seed_demo_test.go; exit 3; }
 echo "== build + demo with change (must fail)"
 (cd $MOD && go build ./... 2>&1 | tail -3)
-(cd $MOD && go test -vet=off -count=1 -timeout 300s ./$REL/ 2>&1 | grep -E "^(--- FAIL|FAIL|ok|panic)" | head -5); 
-(cd $MOD && go test -vet=off -count=1 -timeout 300s ./$REL/ >/dev/null 2>&1); WITH=$?
+(cd $MOD && go test $RACE -vet=off -count=1 -timeout 300s ./$REL/ 2>&1 | grep -E "^(--- FAIL|FAIL|ok|panic)" | head -5); 
+(cd $MOD && go test $RACE -vet=off -count=1 -timeout 300s ./$REL/ >/dev/null 2>&1); WITH=$?
 rm -f $WT/$DEMODIR/zz_seed_demo_test.go
 echo "== existing tests of the touched packages with change (must pass)"
 PKGS=$(git -C $WT diff --name-only | xargs -n1 dirname | sort -u | sed "s#^#./#" | tr '\n' ' ')
